@@ -24,7 +24,7 @@ func init() { rt.Register(&c10{}) }
 
 func (c10) ID() string { return "C10" }
 
-var c10Texts = []string{"", "a", "Ab", "a,b", ",", "12", "-3", "007", "1.5", "-0.25", "x1", "0.1", "3.14159", "a,b,c", "a-b", "1,2,3", "0.5,1.5", "Hello World", "abab", "-0.3", "16777217", "10", "zzz", "1,2", "3,4,5", "a:b:c", "k_v", "A", "1e3", " 1", ".5", "010", "-025", "0100", "00012", "0.0078125", "-3.00390625", "0.0009765625", "1e-7", "123456.7890625"}
+var c10Texts = []string{"", "a", "Ab", "a,b", ",", "12", "-3", "007", "1.5", "-0.25", "x1", "0.1", "3.14159", "a,b,c", "a-b", "1,2,3", "0.5,1.5", "Hello World", "abab", "-0.3", "16777217", "10", "zzz", "1,2", "3,4,5", "a:b:c", "k_v", "A", "1e3", " 1", ".5", "010", "-025", "0100", "00012", "0.0078125", "-3.00390625", "0.0009765625", "1e-7", "123456.7890625", "-9223372036854775808", "+9223372036854775807", "00000000000000000000042", "-1000000000000000000", "9223372036854775808"}
 var c10JSON = []string{`{"x":1,"y":"s"}`, `{"x":"str","list":[1,2,3]}`, `{"x":2.5,"o":{"y":"deep","z":[10,20]}}`, `{"list":["a","b"],"x":true}`, `{"list":[0.5,1.5,2.5],"o":{"y":"q"}}`, `{"x":"","y":"t","list":[7]}`}
 
 type c10Tmpl struct {
@@ -261,6 +261,13 @@ func (k c10) random(c *rt.Ctx) {
 			k.judgeField(c, gen.Call(fn, gen.IndexS(gen.Call("json", gen.Value()), "list"), mkList(false, 3, true)), vecStore, fn, "rowdep-json-array")
 			k.judgeField(c, gen.Call(fn, mkList(false, 3, r.Bool()), gen.IndexS(gen.Call("json", gen.Value()), "list")), vecStore, fn, "rowdep-json-array")
 			c.Rec.Inc("distances_over_json_arrays")
+			// both vectors made of texts (each argument is converted on its own)
+			half := func(i int64) *gen.Node { return gen.Call("split", gen.IndexI(gen.Call("split", gen.Value(), gen.Str(";")), i), gen.Str(",")) }
+			twoStore := []refstore.Pair{{K: "t0", V: "1,2,3;4,6,3"}, {K: "t1", V: "0.5,1.5;2.5,0.25"}, {K: "t2", V: "7;-2"}, {K: "t3", V: "1,0,0,2;0,1,2,0"}, {K: "t4", V: "3,4;3,4"}}
+			k.judgeField(c, gen.Call(fn, half(0), half(1)), twoStore, fn, "rowdep-two-text-vectors")
+			k.judgeField(c, gen.Call(fn, half(1), half(0)), twoStore, fn, "rowdep-two-text-vectors")
+			k.judgeField(c, gen.Call(fn, gen.Call("split", gen.Str("1,2,3"), gen.Str(",")), gen.Call("split", gen.Str("4,6,3"), gen.Str(","))), numStore, fn, "const")
+			c.Rec.Inc("distances_of_two_text_vectors")
 		}
 	case 4: // JSON navigation
 		paths := [][]any{{"x"}, {"y"}, {"list", 0}, {"list", 1}, {"list", 2}, {"o", "y"}, {"o", "z", 1}, {"list"}, {"o"}}
